@@ -26,7 +26,10 @@ BUDGET = {
     "thorough": {"histories": 60, "edits": 8},
 }
 
-# (name, backend argument, extra --config arguments)
+DOCS_URLS = ["-u", "*:https://docs.example/any/", "-u", "vsim:https://vsim.example/api/", "-u", "vsim_core:https://core.vsim.example/", "-u", "icu:https://icu.example/rustdoc/",
+             "-u", "fixed:https://fixed.example/", "-u", "fixed_decimal:https://fd.example/", "-u", "std:https://doc.rust-lang.org/"]
+
+# (name, backend argument, extra command-line arguments)
 BACKENDS = [
     ("c", "c", []),
     ("cpp", "cpp", []),
@@ -41,6 +44,10 @@ BACKENDS = [
     ("nanobind-libname-cli-kebab", "nanobind", ["--config", "nanobind.lib-name=vsimfromclikebab"]),
     ("kotlin-libname-two-sources", "kotlin", ["--config", "kotlin.lib_name=vsimfromcli", "--config", "kotlin.domain=dev.vsimcli"]),
     ("demo_gen", "demo_gen", []),
+    # documentation base URLs (-u): a default, and per-crate entries some of whose keys are prefixes of one another and of
+    # crates that the corpora link to without an entry of their own (`vsim`, `vsim_core` vs. links into `vsim_core_util`)
+    ("cpp-docs-urls", "cpp", DOCS_URLS),
+    ("js-docs-urls", "js", DOCS_URLS),
 ]
 
 # Files that legitimately mention every type (module indexes, library-wide tables). D3 ("adding an
